@@ -945,3 +945,179 @@ Proof.
   destruct Hv as [Hk Hc]. split; [exact Hk|].
   eapply check_cutoff_sound; [exact Ec | exact Hc].
 Qed.
+
+(* ------------------------------------------------------------------ Part I *)
+
+(* ---- sharper relative tail for the cut-off law: the factor z^K is kept *)
+Lemma cutoff_ratio_sharp : forall s z K, 2 <= s -> 0 < z <= 1 -> (1 <= K)%nat ->
+  0 <= (polylog s z - psum (co_term s z) K) / psum (co_term s z) K <= z ^ K * Rpower (INR K) (1 - s).
+Proof.
+  intros s z K Hs Hz HK. destruct (polylog_tail s z K Hs Hz HK) as [_ [H0 H1]].
+  pose proof (psum_co_ge_z s z K ltac:(lra) HK) as HZ.
+  set (Z := psum (co_term s z) K) in *. set (B := Rpower (INR K) (1 - s)) in *.
+  assert (HB : 0 < B) by apply exp_pos.
+  split; [apply Rmult_le_pos; [lra | left; apply Rinv_0_lt_compat; lra]|].
+  apply Rle_trans with ((z ^ S K * B) / z).
+  - unfold Rdiv. apply Rmult_le_compat; try lra.
+    + left. apply Rinv_0_lt_compat. lra.
+    + apply Rinv_le_contravar; lra.
+  - simpl. right. field. lra.
+Qed.
+
+Theorem cutoff_pointwise_sharp : forall s kappa K k, 2 <= s -> 0 < kappa -> (1 <= K)%nat ->
+  0 <= cutoff_R s kappa K k - cutoff_exact s kappa k
+    <= cutoff_z kappa ^ K * Rpower (INR K) (1 - s) * cutoff_exact s kappa k.
+Proof.
+  intros s kappa K k Hs Hk HK. pose proof (cutoff_z_range kappa Hk) as Hz.
+  rewrite cutoff_R_co_term, cutoff_exact_co_term.
+  set (z := cutoff_z kappa) in *.
+  destruct (polylog_tail s z K Hs ltac:(lra) HK) as [_ [H0 _]].
+  pose proof (cutoff_ratio_sharp s z K Hs ltac:(lra) HK) as Hq.
+  pose proof (psum_co_ge_z s z K ltac:(lra) HK) as HZ.
+  pose proof (co_term_pos s z k ltac:(lra)) as Ht.
+  set (Z := psum (co_term s z) K) in *. set (B := z ^ K * Rpower (INR K) (1 - s)) in *. set (t := co_term s z k) in *.
+  set (P := polylog s z) in *.
+  assert (HP : 0 < P) by lra.
+  replace (t / Z - t / P) with (t / P * ((P - Z) / Z)) by (field; lra).
+  assert (He : 0 < t / P) by (apply Rdiv_lt_0_compat; lra).
+  split; [apply Rmult_le_pos; lra | rewrite (Rmult_comm B); apply Rmult_le_compat_l; lra].
+Qed.
+
+Theorem cutoff_sum_sharp : forall s kappa K, 2 <= s -> 0 < kappa -> (1 <= K)%nat ->
+  let z := cutoff_z kappa in
+  0 <= polylog s z / psum (co_term s z) K - 1 <= z ^ K * Rpower (INR K) (1 - s).
+Proof.
+  intros s kappa K Hs Hk HK z. pose proof (cutoff_z_range kappa Hk) as Hz. fold z in Hz.
+  pose proof (psum_co_ge_z s z K ltac:(lra) HK) as HZ.
+  pose proof (cutoff_ratio_sharp s z K Hs ltac:(lra) HK) as Hr.
+  replace (polylog s z / psum (co_term s z) K - 1)
+    with ((polylog s z - psum (co_term s z) K) / psum (co_term s z) K) by (field; lra).
+  exact Hr.
+Qed.
+
+(* ---- the series-truncation tolerance in closed form: at every index where the loop may stop,
+        the relative tail is below 1001 * tol_hi (< 1.002e-3), for every s >= 2 *)
+Lemma tol_hi_lt_1 : tol_hi < 1.
+Proof. replace 1 with (Q2R 1) by (unfold Q2R; simpl; lra). apply Qlt_Rlt. reflexivity. Qed.
+
+Lemma tol_lo_big : / (1001 * 1001) < tol_lo.
+Proof.
+  replace (/ (1001 * 1001)) with (Q2R (1 # 1002001)) by (unfold Q2R; simpl; lra).
+  apply Qlt_Rlt. reflexivity.
+Qed.
+
+Lemma pl_term_le_sq : forall s j, 2 <= s -> (1 <= j)%nat -> pl_term s j <= / (INR j * INR j).
+Proof.
+  intros s j Hs Hj. pose proof (INR_pos j Hj) as HjR.
+  rewrite <- Rpower_m2 by exact HjR. unfold pl_term, Rpower.
+  assert (0 <= ln (INR j)).
+  { rewrite <- ln_1. destruct (Nat.eq_dec j 1) as [->|Hn]; [simpl; lra|].
+    left. apply ln_increasing; [lra|]. replace 1 with (INR 1) by reflexivity. apply lt_INR. lia. }
+  destruct (Req_dec (- s * ln (INR j)) (- 2 * ln (INR j))) as [->|Hne]; [lra|].
+  left. apply exp_increasing. nra.
+Qed.
+
+Lemma near_break_index_le : forall s t K, 2 <= s ->
+  (forall j, 0 < t j <= pl_term s j) -> t 1%nat = 1 \/ (2 <= K)%nat ->
+  near_break t K -> (2 <= K <= 1001)%nat.
+Proof.
+  intros s t K Hs Ht H1 [HK [Hhi Hlo]].
+  assert (HK2 : (2 <= K)%nat).
+  { destruct H1 as [H1|H1]; [|exact H1].
+    destruct (Nat.eq_dec K 1) as [->|Hn]; [|lia].
+    rewrite H1, Rabs_R1 in Hhi. pose proof tol_hi_lt_1. lra. }
+  split; [exact HK2|].
+  destruct (le_lt_dec K 1001) as [Hle|Hgt]; [exact Hle|exfalso].
+  specialize (Hlo (K - 1)%nat ltac:(lia)).
+  destruct (Ht (K - 1)%nat) as [Ht0 Ht1].
+  rewrite Rabs_pos_eq in Hlo by lra.
+  pose proof (pl_term_le_sq s (K - 1) Hs ltac:(lia)) as Hsq.
+  assert (Hj : 1001 <= INR (K - 1)).
+  { replace 1001 with (INR 1001) by (simpl; lra). apply le_INR. lia. }
+  assert (Hinv : / (INR (K - 1) * INR (K - 1)) <= / (1001 * 1001)).
+  { apply Rinv_le_contravar; [lra | nra]. }
+  pose proof tol_lo_big. lra.
+Qed.
+
+Theorem trunc_tolerance_power_law : forall s K, 2 <= s -> near_break (pl_term s) K ->
+  Rpower (INR K) (1 - s) < 1001 * tol_hi.
+Proof.
+  intros s K Hs Hb.
+  pose proof (near_break_index_le s (pl_term s) K Hs
+                (fun j => conj (pl_term_pos s j) (Rle_refl _)) (or_introl (pl_term_1 s)) Hb) as [HK2 HK].
+  destruct Hb as [_ [Hhi _]]. rewrite Rabs_pos_eq in Hhi by (left; apply pl_term_pos).
+  pose proof (INR_pos K ltac:(lia)) as HKR.
+  replace (1 - s) with (1 + - s) by ring. rewrite Rpower_plus, Rpower_1 by exact HKR.
+  fold (pl_term s K).
+  assert (INR K <= 1001) by (replace 1001 with (INR 1001) by (simpl; lra); apply le_INR; lia).
+  pose proof (pl_term_pos s K).
+  apply Rle_lt_trans with (1001 * pl_term s K); [apply Rmult_le_compat_r; lra | apply Rmult_lt_compat_l; lra].
+Qed.
+
+Theorem trunc_tolerance_cutoff : forall s z K, 2 <= s -> 0 < z <= 1 -> near_break (co_term s z) K ->
+  z ^ K * Rpower (INR K) (1 - s) < 1001 * tol_hi.
+Proof.
+  intros s z K Hs Hz Hb.
+  assert (Hco : forall j, 0 < co_term s z j <= pl_term s j).
+  { intros j. split; [apply co_term_pos; lra|]. unfold co_term. fold (pl_term s j).
+    assert (z ^ j <= 1) by (rewrite <- (pow1 j); apply pow_incr; lra).
+    assert (0 < z ^ j) by (apply pow_lt; lra). pose proof (pl_term_pos s j). nra. }
+  destruct (Nat.eq_dec K 1) as [->|Hn].
+  - (* a single term: z * 1 < tol_hi *)
+    destruct Hb as [_ [Hhi _]]. rewrite co_term_1, Rabs_pos_eq in Hhi by lra.
+    simpl INR. replace (Rpower 1 (1 - s)) with 1 by (unfold Rpower; rewrite ln_1, Rmult_0_r, exp_0; reflexivity).
+    simpl. pose proof tol_hi_ge. pose proof tolR_pos. lra.
+  - assert (HK1 : (1 <= K)%nat) by (destruct Hb as [H _]; exact H).
+    assert (HK2' : (2 <= K)%nat) by lia.
+    pose proof (near_break_index_le s (co_term s z) K Hs Hco (or_intror HK2') Hb) as [HK2 HK].
+    destruct Hb as [_ [Hhi _]]. rewrite Rabs_pos_eq in Hhi by (left; apply co_term_pos; lra).
+    pose proof (INR_pos K ltac:(lia)) as HKR.
+    replace (1 - s) with (1 + - s) by ring. rewrite Rpower_plus, Rpower_1 by exact HKR.
+    replace (z ^ K * (INR K * Rpower (INR K) (- s))) with (INR K * co_term s z K) by (unfold co_term; ring).
+    assert (INR K <= 1001) by (replace 1001 with (INR 1001) by (simpl; lra); apply le_INR; lia).
+    pose proof (co_term_pos s z K ltac:(lra)).
+    apply Rle_lt_trans with (1001 * co_term s z K); [apply Rmult_le_compat_r; lra | apply Rmult_lt_compat_l; lra].
+Qed.
+
+Lemma trunc_tolerance_numeric : 1001 * tol_hi < 1002 / 1000000.
+Proof.
+  replace (1001 * tol_hi) with (Q2R (1001 * tol_hiQ)) by (rewrite Q2R_mult; unfold tol_hi, Q2R at 1; simpl; lra).
+  replace (1002 / 1000000) with (Q2R (1002 # 1000000)) by (unfold Q2R; simpl; lra).
+  apply Qlt_Rlt. reflexivity.
+Qed.
+
+(* ---- accepted values vs the named laws, with the tolerance in closed form *)
+Definition TRUNC_TOL : R := 1002 / 1000000.
+
+Theorem spec_power_law_exact_closed : forall s k x, 2 <= s -> Spec_power_law s k x ->
+  0 <= x /\ Rabs (x - power_law_exact s k) <= (TRUNC_TOL + relR * (1 + TRUNC_TOL)) * power_law_exact s k + absR.
+Proof.
+  intros s k x Hs [H0 [K [Hb Hn]]]. split; [exact H0|].
+  assert (HK : (1 <= K)%nat) by (destruct Hb as [H _]; exact H).
+  pose proof (power_law_pointwise s K k Hs HK) as Hp.
+  pose proof (trunc_tolerance_power_law s K Hs Hb) as Ht. pose proof trunc_tolerance_numeric as Hnum.
+  destruct (zeta_tail s K Hs HK) as [_ [Hz0 _]]. pose proof (psum_pl_ge_1 s K HK).
+  assert (He : 0 < power_law_exact s k).
+  { unfold power_law_exact. apply Rdiv_lt_0_compat; [apply pl_term_pos | lra]. }
+  apply (near_exact x (power_law_R s K k)); [unfold TRUNC_TOL; lra | exact He | | exact Hn].
+  unfold TRUNC_TOL. split; [lra|]. destruct Hp as [_ Hp]. eapply Rle_trans; [exact Hp|].
+  apply Rmult_le_compat_r; lra.
+Qed.
+
+Theorem spec_cutoff_exact_closed : forall s kappa k x, 2 <= s -> 0 < kappa -> Spec_cutoff s kappa k x ->
+  0 <= x /\ Rabs (x - cutoff_exact s kappa k) <= (TRUNC_TOL + relR * (1 + TRUNC_TOL)) * cutoff_exact s kappa k + absR.
+Proof.
+  intros s kappa k x Hs Hk [H0 [K [Hb Hn]]]. split; [exact H0|].
+  assert (HK : (1 <= K)%nat) by (destruct Hb as [H _]; exact H).
+  pose proof (cutoff_z_range kappa Hk) as Hz.
+  pose proof (cutoff_pointwise_sharp s kappa K k Hs Hk HK) as Hp.
+  pose proof (trunc_tolerance_cutoff s (cutoff_z kappa) K Hs ltac:(lra) Hb) as Ht.
+  pose proof trunc_tolerance_numeric as Hnum.
+  destruct (polylog_tail s (cutoff_z kappa) K Hs ltac:(lra) HK) as [_ [Hz0 _]].
+  pose proof (psum_co_ge_z s (cutoff_z kappa) K ltac:(lra) HK).
+  assert (He : 0 < cutoff_exact s kappa k).
+  { rewrite cutoff_exact_co_term. apply Rdiv_lt_0_compat; [apply co_term_pos; lra | lra]. }
+  apply (near_exact x (cutoff_R s kappa K k)); [unfold TRUNC_TOL; lra | exact He | | exact Hn].
+  unfold TRUNC_TOL. split; [lra|]. destruct Hp as [_ Hp]. eapply Rle_trans; [exact Hp|].
+  apply Rmult_le_compat_r; lra.
+Qed.
